@@ -2,6 +2,7 @@
 //! simulated worlds (iosim: C02 C03 C06 C11; r1csim: C13 C14).
 mod bridge;
 mod common;
+mod edge;
 mod io;
 mod r1;
 
@@ -22,6 +23,10 @@ fn main() {
         usage();
     }
     let engine = args[0].clone();
+    if engine == "edge" {
+        let mode = args.iter().position(|a| a == "--mode").and_then(|i| args.get(i + 1)).cloned().unwrap_or_default();
+        std::process::exit(edge::main(&mode));
+    }
     if engine == "vectors" {
         // reference vectors for the cross-target conversions pass (tools/cross_target.py): computed by the
         // BigUint reference model only, one per line
